@@ -65,17 +65,36 @@ def richBootstrap (stub : Bytes) : Img :=
 
 def b01 (b : Bool) : String := if b then "1" else "0"
 
+/-- the specification's view of an image: `any` = the DOS area has some well-formed trailer,
+`wf` = the answer of the model is one of them and the area is exactly the documented layout of the
+returned stub, key and records -/
+def richSpecPart (img : Img) : String :=
+  let ws := Rich.words img.bytes
+  let area := ws.take (ws.getD 15 0 / 4)
+  let any := !(Spec.parses area).isEmpty
+  let wf := match Rich.tryFrom ws with
+    | .ok r =>
+      match r.xorKey, r.records with
+      | .ok k, .ok it =>
+        decide (Spec.WellFormedAt area r.start r.end_ k) &&
+        decide (area = Spec.layout r.dosStub k it.collect (area.length - r.end_))
+      | _, _ => false
+    | _ => false
+  s!" ## any={b01 any} wf={b01 wf} hyp=1"
+
 /-- rich <k> -/
 def richOp (img : Option Img) (k : String) : String :=
   withView img k fun v =>
-    match Rich.ofImage v.img with
+    (match Rich.ofImage v.img with
     | .ok r => richDump r
-    | o => outStr (fun _ => "") o
+    | o => outStr (fun _ => "") o) ++ richSpecPart v.img
 
-/-- rich_raw <hex> ; the spec part says whether the DOS area is a well-formed layout at all -/
+/-- rich_raw <hex> -/
 def richRaw (a : List String) : String :=
   match a with
-  | [hx] => richWith (richWrap (unhex hx)) richDump
+  | [hx] =>
+    let img := richWrap (unhex hx)
+    richWith img richDump ++ richSpecPart img
   | _ => "bad-op"
 
 def richCodec (a : List String) : String :=
@@ -107,7 +126,7 @@ def richEncode (a : List String) : String :=
     if stub.size < 64 || stub.size % 4 != 0 then "bad-op" else
     let records := richParseRecs rs
     let destLen := num dl
-    let stubW := Rich.words (richStubImage stub [DANS ^^^ 1, 1, 1, 1, RICH, 1]) |>.take (stub.size / 4)
+    let stubW := Rich.words stub
     let k := Spec.checksum stubW records
     let n := records.length
     -- documented result: Err(len) when the destination is too small, else the header with the checksum as key
@@ -133,7 +152,7 @@ def richRt (a : List String) : String :=
     let n := records.length
     let destLen := n * 2 + 6 + pad
     -- the specification's answer (theorem C16_round_trip_partial)
-    let stubW := Rich.words (richStubImage stub (List.replicate destLen 0)) |>.take (stub.size / 4)
+    let stubW := Rich.words stub
     let k := Spec.checksum stubW records
     let hyp := k != 0 && !Spec.imitates records
     let spec := s!"img={stub.size}:{4 * (2 * n + 6)},key={k},csum={k},n={n},recs=[{richRecs records}],reenc=1"
@@ -177,7 +196,7 @@ def richIter (a : List String) : String :=
       match r.records with
       | .ok it =>
         let spec := join ((Spec.runDeque it.collect ops).map richRes) ";"
-        let hyp := it.iter.length % 2 == 0 && ops.all (fun o => match o with | .nth n => decide (n * 2 + 2 < USZ) | _ => true)
+        let hyp := it.iter.length % 2 == 0
         outStr (fun rs => join (rs.map richRes) ";") (it.run ops) ++ s!" ## spec={spec} hyp={b01 hyp}"
       | o => outStr (fun _ => "") o
   | _ => "bad-op"
